@@ -18,7 +18,8 @@ RULE = (
     "Hypothesis-generated (instant, offset, calendar, second offset, second calendar, duration, zone) tuples: "
     "instants biased to day boundaries and to within 18 h of the ends of the Instant range, offsets over all seconds "
     "in +/-18 h (edge biased, pairs more than 24 h apart), all calendar ids, zones sampled from the provider plus "
-    "fixed zones. Oracle: int model. Non-trivial: local day != UTC day, a double day carry on with_offset, a non-ISO "
+    "fixed zones; every field accessor of the compound values equals that of their local date-time; results must be "
+    "in normal form. Oracle: int model. Non-trivial: local day != UTC day, a double day carry on with_offset, a non-ISO "
     "calendar, or a value within 18 h of a range end / a raising case. Distinct = (kind, case) hash."
 )
 ASSUMPTIONS = ["zone.get_utc_offset(instant) is taken as given here (C04-C06 decide it)"]
